@@ -20,7 +20,8 @@ import time
 REPO = os.environ.get("BGV_REPO", "/repo")
 VERIF = os.path.dirname(os.path.dirname(os.path.abspath(__file__)))
 DRIVER = os.path.join(VERIF, "driver", "target", "release", "bgv-driver")
-CACHE = os.path.join(VERIF, ".cache", "facts")
+# facts of scratch copies (BGV_REPO) are cached next to the copy and disappear with it
+CACHE = os.path.join(VERIF, ".cache", "facts") if REPO == "/repo" else os.path.join(os.path.dirname(os.path.abspath(REPO)), ".bgv-facts")
 
 # feature configurations (DESIGN.md §2 E1)
 CONFIGS = {
@@ -153,6 +154,7 @@ def _run_driver(config, outfile):
         if len(d["fns"]) < MIN_BODIES[config]:
             raise ToolError("fact file holds %d bodies, floor is %d" % (len(d["fns"]), MIN_BODIES[config]))
         tmp = outfile + ".tmp%d" % os.getpid()
+        os.makedirs(os.path.dirname(tmp), exist_ok=True)
         with open(tmp, "w") as fh:
             json.dump(d, fh)
         os.replace(tmp, outfile)
@@ -177,8 +179,9 @@ def _prune(keep):
     except OSError:
         return
     ents.sort(reverse=True)
-    for _, e in ents[8:]:
-        if e != keep:
+    now = time.time()
+    for mt, e in ents[12:]:
+        if e != keep and now - mt > 3600:
             shutil.rmtree(os.path.join(CACHE, e), ignore_errors=True)
 
 
